@@ -83,7 +83,7 @@ theorem rebuildTable_spec {env : Env} {read : Loc → Option Bytes} {ss : List S
         subst this
         exact absurd hf2 (hdisj (ref, j) (by simp) f hf1)
     simp only [hnone]
-    have hins := tableInsert_ok (hash := env.hash) (S := strAt env read ss) hp (env.hash x) k true
+    have hins := tableInsert_ok (hash := env.hash) (S := strAt env read ss) hp (env.hash x) k false
     have hre : rehashFn env read ss = fun k => (strAt env read ss k).map env.hash := rfl
     rw [hre, hins]
     simp only
